@@ -21,14 +21,20 @@ RULE = ("history differential: random histories over {create v1/v2/hybrid of p (
         "(and the output path) blank, an interactive create after a CLI or library create and vice versa, interactive edit and "
         "recheck dialogs; `create --config --config-path <ini>` twice or three times in one process with DIFFERENT ini files (the "
         "second omits keys the first sets: meta-version, piece-length, private, source, comment, web-seed), spelled create/new, "
-        "followed by a plain CLI create.  A history is non-trivial when it contains a create after a filesystem change "
+        "followed by a plain CLI create; the process-wide LOGGING LEVEL: every CLI step also with the global flag -v (which leaves the "
+        "root logger at DEBUG for the rest of the process), and aimed: a -v create / info / recheck / magnet followed by a rebuild of a "
+        "BATCH of two metafiles (two trackers) for the same single file whose RETURNED counter and destination are compared, by "
+        "rechecks with a hook registered through Checker.register_callback whose received messages are part of the result, and by "
+        "the recheck of a v1 torrent made from empty files one of which grew afterwards.  A history is non-trivial when it contains a create after a filesystem change "
         "that followed an earlier create/recheck of the same path; distinct = distinct step sequence.")
 TRUSTED_BASE = [
     "Coq 8.16.1 kernel; theorems closed under the global context",
     "translator gen/gen_state.py (+ gen/callgraph.py): the read/write/flow summaries must over-approximate the code -- this is the "
     "weakest link (name-based, syntactic); the history differential is what looks for channels it cannot see "
     "(monkey-patching, interned objects, sys.modules)",
-    "sys.stdout/sys.stderr rebinding by -q and logging handlers are declared benign: what is printed is not an operation's result",
+    "sys.stdout/sys.stderr rebinding by -q and what logging handlers print are declared benign: what is printed is not an operation's "
+    "result.  The LEVELS of the logging tree are a cell (`logging:level`, written by -v): a level test is benign only when it guards "
+    "nothing but discarded logging calls",
 ]
 ASSUMPTIONS = ["`respects`: the generated summaries over-approximate each operation's reads that flow into results and its writes"]
 
@@ -64,13 +70,22 @@ def gen_history(rng, length):
             steps.append(st)
         else:
             v = rng.choice(sorted(created))
-            op = rng.choice(["recheck", "recheck", "edit", "magnet", "rebuild", "info", "irecheck", "iedit"])
+            op = rng.choice(["recheck", "recheck", "edit", "magnet", "rebuild", "info", "irecheck", "iedit", "rebuild-batch"])
             st = {"op": op, "version": v, "via": rng.choice(["lib", "cli"])}
             if op == "edit":
                 st["comment"] = f"c{rng.randrange(100)}"
             if op == "iedit":
                 st["edits"] = [[rng.choice(["comment", "source"]), f"e{rng.randrange(100)}"]]
+            if op == "rebuild-batch":
+                steps.append({"op": "mkbatch", "version": v, "file": rng.choice(["a", "b"])})
+            if op == "recheck" and rng.random() < 0.5:
+                st["hook"] = True
             steps.append(st)
+        # the global flag -v (debug): the root logger stays at DEBUG for the rest of the process
+        last = steps[-1]
+        if last["op"] in ("create", "recheck", "edit", "info", "magnet", "rebuild", "rebuild-batch") and last.get("via") == "cli" \
+                and rng.random() < 0.45:
+            last["verbose"] = True
     return steps
 
 
@@ -104,7 +119,7 @@ def apply_fs(sb, step):
             tree["zz"] = {"deep": {"er": {"lnk2": {"": {"attr": "l", "symlink path": ["b"]}}}}}
         pyben.dump(meta, os.path.join(sb, f"m{step['dst']}.torrent"))
         return
-    p = os.path.join(sb, "payload", step["file"])
+    p = os.path.join(sb, step.get("root", "payload"), step["file"])
     if act == "zeros":                       # a file of zero bytes (its piece hashes equal those of padding)
         os.makedirs(os.path.dirname(p), exist_ok=True)
         with open(p, "wb") as fd:
@@ -217,6 +232,16 @@ def run_history(tmp, hid, steps, seed):
 
 
 CREATES = ("create", "icreate", "cfgcreate")
+
+
+def after_verbose(steps):
+    """an operation whose result is compared runs after an earlier `-v` step of the same process"""
+    seen = False
+    for st in steps:
+        if seen and st["op"] != "fs":
+            return True
+        seen = seen or bool(st.get("verbose"))
+    return False
 
 
 def nontrivial(steps):
@@ -372,10 +397,66 @@ def config_histories(tier):
     return out
 
 
+def logging_histories(tier):
+    """the process-wide LOGGING LEVEL: `-v` (cli.Config.activate_logger) raises the root logger to DEBUG and nothing resets it, so
+    every later operation of the process runs with all loggers enabled, a fresh interpreter with the default (WARNING).  An
+    operation whose result (returned counter, percentage, exception, what a registered hook receives, what lands on disk)
+    is computed under `isEnabledFor` / `getEffectiveLevel` differs.  Aimed at the places where a level test is tempting:
+    de-duplicated / counted messages of a rebuild BATCH (two metafiles, two trackers, the same single file), the per-piece
+    progress messages of recheck (handed to the hook of Checker.register_callback), the arithmetic of those messages on a
+    v1 torrent made from EMPTY files one of which grew afterwards (total = 0)."""
+    out = []
+    vsteps = [lambda v: {"op": "create", "version": v, "via": "cli", "verbose": True, "pl": 32768},
+              lambda v: {"op": "info", "version": v, "via": "cli", "verbose": True},
+              lambda v: {"op": "recheck", "version": v, "via": "cli", "verbose": True},
+              lambda v: {"op": "magnet", "version": v, "via": "cli", "verbose": True}]
+    # (1) -v step, then a batch rebuild of two metafiles for one file: returned counter and destination
+    combos = [(1, 0, "cli"), (2, 1, "lib"), (3, 0, "lib"), (1, 2, "lib"), (2, 3, "cli"), (3, 1, "cli")]
+    for v, k, via in combos if tier == "thorough" else combos[:3]:
+        out.append([{"op": "create", "version": v, "via": "lib"},
+                    {"op": "mkbatch", "version": v, "file": "a"},
+                    vsteps[k](v),
+                    {"op": "rebuild-batch", "version": v, "via": via},
+                    {"op": "rebuild-batch", "version": v, "via": "cli" if via == "lib" else "lib"},      # second run: all present
+                    {"op": "rebuild", "version": v, "via": "lib"}])
+    # (2) -v step, then rechecks with a registered hook (intact and damaged content)
+    combos = [(1, 0, "lib"), (2, 1, "lib"), (3, 2, "cli"), (1, 3, "cli"), (3, 0, "lib")]
+    for v, k, via in combos if tier == "thorough" else combos[:3]:
+        out.append([{"op": "create", "version": v, "via": "asm"},
+                    {"op": "recheck", "version": v, "via": via, "hook": True},
+                    vsteps[k](v),
+                    {"op": "recheck", "version": v, "via": via, "hook": True},
+                    {"op": "fs", "action": "shrink", "file": "a", "seed": 4},
+                    {"op": "recheck", "version": v, "via": "lib", "hook": True},
+                    {"op": "recheck", "version": v, "via": "cli"}])
+    # (3) v1 (and hybrid) torrent made from empty files; one grows; -v step; recheck (with and without hook)
+    for v, k in ((1, 0), (1, 1), (3, 0)) if tier == "thorough" else ((1, 0), (1, 1)):
+        out.append([{"op": "fs", "action": "zeros", "root": "empties", "file": "e.bin", "size": 0},
+                    {"op": "fs", "action": "zeros", "root": "empties", "file": "sub/f.bin", "size": 0},
+                    {"op": "create", "version": v, "via": "lib", "target": "empties"},
+                    {"op": "recheck", "version": v, "via": "lib", "target": "empties"},
+                    {"op": "fs", "action": "grow", "root": "empties", "file": "e.bin", "seed": 6},
+                    {"op": "create", "version": 2, "via": "lib"},
+                    vsteps[k](2),
+                    {"op": "recheck", "version": v, "via": "lib", "target": "empties"},
+                    {"op": "recheck", "version": v, "via": "lib", "target": "empties", "hook": True},
+                    {"op": "recheck", "version": v, "via": "cli", "target": "empties"}])
+    # (4) -v in front of the other routes: config create, then everything once more without the flag
+    out.append([{"op": "fs", "action": "write-ini", "name": "V.ini", "cfg": {"meta-version": 3, "comment": "verbose"}},
+                {"op": "cfgcreate", "ini": "V.ini", "out": "m3.torrent", "verbose": True},
+                {"op": "mkbatch", "version": 3, "file": "b"},
+                {"op": "rebuild-batch", "version": 3, "via": "lib"},
+                {"op": "edit", "version": 3, "via": "cli", "comment": "after verbose"},
+                {"op": "recheck", "version": 3, "via": "lib", "hook": True},
+                {"op": "icreate", "version": 1},
+                {"op": "irecheck", "version": 3}])
+    return out
+
+
 def run(ctx, model_ok):
     import sys
     sys.path.insert(0, os.path.join(core.VERIF, "harness"))
-    n = 52 if ctx.tier == "quick" else 600
+    n = 60 if ctx.tier == "quick" else 600
     maxlen = 8 if ctx.tier == "quick" else 15
     hist = []
     # aimed prefixes first: create; change; create (every kind of change)
@@ -397,7 +478,7 @@ def run(ctx, model_ok):
                      {"op": "create", "version": v, "via": via, "pl": 32768}, {"op": "recheck", "version": v, "via": "cli"},
                      {"op": "create", "version": v, "via": via, "pl": 65536}])
     hist += aimed_state_histories(ctx.tier)
-    hist += interactive_histories(ctx.tier) + config_histories(ctx.tier)
+    hist += interactive_histories(ctx.tier) + config_histories(ctx.tier) + logging_histories(ctx.tier)
     while len(hist) < n:
         hist.append(gen_history(ctx.rng, ctx.rng.randrange(3, maxlen + 1)))
     with core.Scratch("vc09_") as tmp:
@@ -409,6 +490,8 @@ def run(ctx, model_ok):
     for i, (steps, diffs) in enumerate(results):
         ctx.case(key=json.dumps(steps, sort_keys=True), nontrivial=nontrivial(steps),
                  classes=["history with create after a filesystem change" if nontrivial(steps) else "other history"] +
+                 (["operation after an earlier -v (root logger at DEBUG)"] if after_verbose(steps) else []) +
+                 (["recheck with a registered hook"] if any(s.get("hook") for s in steps) else []) +
                  sorted({"op " + s["op"] for s in steps}),
                  sample=steps if i == 0 else None)
         ctx.traces_validated += 1
